@@ -47,9 +47,9 @@ class Clock:
         return self.t
 
 
-def build(pkce_required, clock):
+def build(pkce_required, clock, transport="neutral"):
     store = S.Store()
-    srv = S.Server(store)
+    srv = S.Server(store, transport=transport)
     g = S.make_grants(store)
     srv.register_grant(g["code"], [CodeChallenge(required=pkce_required)])
     dev_ep, dev_grant = S.make_device(store)
@@ -69,12 +69,12 @@ def cred_parts(cred):
     return {}, {"client_id": cred[1]}
 
 
-def run_impl(ops, pkce_required):
+def run_impl(ops, pkce_required, transport="neutral"):
     clock = Clock()
     real = time.time
     time.time = clock
     try:
-        store, srv = build(pkce_required, clock)
+        store, srv = build(pkce_required, clock, transport)
         codes, devices, user_codes = [], {}, {}
         order = 0
         outs = []
@@ -185,12 +185,16 @@ def alphabet():
     return A
 
 
-def check_seq(ctx, ops, pkce_required, tag):
+def check_seq(ctx, ops, pkce_required, tag, transport=None):
     m = ctx.model
-    got, store = run_impl(ops, pkce_required)
+    # the provider behind the framework-free server or behind the repository's Flask / Django glue (impl/transports.py)
+    from impl import transports as T
+    transport = transport or T.pick(ops, pkce_required)
+    ctx.count("transport:" + transport)
+    got, store = run_impl(ops, pkce_required, transport)
     mod = m.call("codeflow_run", {"registry": REG, "pkce_required": pkce_required, "ops": ops})
     mod["live_codes"] = sorted(mod["live_codes"])
-    case = {"pkce_required": pkce_required, "ops": ops}
+    case = {"pkce_required": pkce_required, "ops": ops, "transport": transport}
     kinds = tuple(o["op"] for o in ops)
     ctx.case(case, (tag, json.dumps(ops, sort_keys=True), pkce_required), "seq:%s:len%d" % (tag, len(ops)))
     for x in got["outs"]:
@@ -382,6 +386,6 @@ def run(ctx):
 def run_case(ctx, case):
     ctx.oracles = {"sha256": lambda q: hashlib.sha256(q.encode("utf-8", "surrogateescape")).digest()}
     if "ops" in case:
-        check_seq(ctx, case["ops"], case["pkce_required"], "replay")
+        check_seq(ctx, case["ops"], case["pkce_required"], "replay", case.get("transport"))
     else:
         run(ctx)
